@@ -112,7 +112,7 @@ def parse_vc(path):
                     m = re.match(r'"(.*)"\s*=>\s*"(.*)"\s*(#\S+)?$', rest)
                     if not m:
                         raise SystemExit(f"{path}:{ln}: bad //@subst")
-                    cur.subst.append((m.group(1), m.group(2), m.group(3) or "#N?"))
+                    cur.subst.append((m.group(1).replace('\\"', '"'), m.group(2).replace('\\"', '"'), m.group(3) or "#N?"))
                 elif word in ("sig", "loop", "closure", "before", "after", "wraptail", "armstart", "armend", "bodystart"):
                     blk = Block(word, rest, path, ln)
                     cur.blocks.append(blk)
@@ -373,6 +373,25 @@ def emit_fn(out, entry, mode, stats, canary=False):
             if k < 1 or k > len(loops):
                 raise LostAnchor(f"{entry.id}: loop#{k} not found ({len(loops)} loops)")
             edits.append((loops[k - 1][1], loops[k - 1][1], "\n" + b.text().rstrip("\n") + "\n", vc_origin(b)))
+            if "enumerate" in b.arg.split():
+                # N19: `for (I, X) in E.iter().enumerate() {` => `for I in 0..E.len() { let X = &E[I];`
+                # (the definition of slice::Iter + Enumerate: indices from 0, elements in order). The body stays verbatim.
+                kw_i, brace = loops[k - 1]
+                hdr = [x for x in range(kw_i + 1, brace) if toks[x].kind not in (WS, COMMENT)]
+                txt = [toks[x].text for x in hdr]
+                ok = len(txt) >= 12 and txt[0] == "(" and txt[2] == "," and txt[4] == ")" and txt[5] == "in" and txt[-7:] == [".", "iter", "(", ")", ".", "enumerate", "("][0:7] if False else None
+                tail = [".", "iter", "(", ")", ".", "enumerate", "(", ")"]
+                if not (len(txt) > 6 + len(tail) and txt[0] == "(" and txt[2] == "," and txt[4] == ")" and txt[5] == "in" and txt[-len(tail):] == tail):
+                    raise LostAnchor(f"{entry.id}: loop#{k} is not `for (i, x) in E.iter().enumerate()`")
+                ivar, xvar = txt[1], txt[3]
+                e_first, e_last = hdr[6], hdr[-len(tail) - 1]
+                etext = "".join(t.text for t in toks[e_first:e_last + 1])
+                m_it2 = re.search(r"iter=(\w+)", b.arg)
+                itname = (m_it2.group(1) + ": ") if m_it2 else ""
+                edits.append((hdr[0], hdr[-1] + 1, f"{ivar} in {itname}0..{etext}.len() ", dict(kind="gen", fn=entry.id, norm="N19")))
+                edits.append((brace + 1, brace + 1, f" let {xvar} = &{etext}[{ivar}];", dict(kind="gen", fn=entry.id, norm="N19")))
+                stats.count("N19")
+                b.arg = re.sub(r"iter=\w+", "", b.arg)
             if "tailcontinue" in b.arg:
                 # N16: Verus for-loops do not support `continue`. A `continue` that is the value of a match arm of the
                 # LAST statement of the loop body is equivalent to `{}`; anything else is refused.
